@@ -76,7 +76,7 @@ func genC05(t *rapid.T, thorough bool) C05Case {
 	maxNodes := 200
 	deep := []int{1000, 10000}
 	if thorough {
-		maxNodes = 5000
+		maxNodes = 2000
 		deep = []int{1000, 10000, 100000}
 	}
 	var c C05Case
